@@ -150,11 +150,12 @@ Theorem C07_rgb_sent_is_same_colour : forall c : color4 Q,
   exists h s v,
     ((0 <= h)%Q /\ (h < 1)%Q) /\ in01 s /\ in01 v /\
     triple_eq (hsv_to_rgb_Q h s v) (c0 c / 100, c1 c / 100, c2 c / 100)%Q /\
-    canonical_color_Q RGB c =
-      mkcolor (param_16_Q (h * 65535)) (param_16_Q (s * 65535)) (param_16_Q (v * 65535)) (param_16_Q (c3 c)) /\
+    c0 (canonical_color_Q RGB c) = param_16_Q (h * 65535) /\
+    c1 (canonical_color_Q RGB c) = param_16_Q (s * 65535) /\
+    c2 (canonical_color_Q RGB c) = param_16_Q (v * 65535) /\
     nearest_clamped 0 65535 (h * 65535) (param_16_Q (h * 65535)) /\
     nearest_clamped 0 65535 (s * 65535) (param_16_Q (s * 65535)) /\
     nearest_clamped 0 65535 (v * 65535) (param_16_Q (v * 65535)) /\
-    nearest_clamped 0 65535 (c3 c) (param_16_Q (c3 c)).
+    nearest_clamped 0 65535 (c3 c) (c3 (canonical_color_Q RGB c)).
 Proof. exact rgb_sent_is_same_colour. Qed.
 Print Assumptions C07_rgb_sent_is_same_colour.
